@@ -74,8 +74,7 @@ func (e *DefaultExecutor) Execute(ctx context.Context, job *Job) ([]byte, error)
 		return nil, err
 	}
 
-	env := e.env
-	env = append(env, utils.ConvertEnv(utils.ConvertToMapOfStrings(job.Env.Map()))...)
+	env := mergeEnv(e.env, utils.ConvertToMapOfStrings(job.Env.Map()))
 
 	if job.Dir == "" {
 		job.Dir = e.dir
@@ -103,6 +102,26 @@ func (e *DefaultExecutor) Execute(ctx context.Context, job *Job) ([]byte, error)
 	}
 
 	return e.buf.Bytes()[offset:], nil
+}
+
+// mergeEnv returns base with every variable that overrides defines replaced by
+// the overriding value. Every overridden name occurs once in the result, so the
+// outcome does not depend on how the interpreter resolves duplicates
+// (expand.ListEnviron sorts the pairs and keeps the greatest value).
+func mergeEnv(base []string, overrides map[string]string) []string {
+	env := make([]string, 0, len(base)+len(overrides))
+	for _, pair := range base {
+		name := pair
+		if i := strings.Index(pair, "="); i >= 0 {
+			name = pair[:i]
+		}
+		if _, ok := overrides[name]; ok {
+			continue
+		}
+		env = append(env, pair)
+	}
+
+	return append(env, utils.ConvertEnv(overrides)...)
 }
 
 // IsExitStatus checks if given `err` is an exit status
